@@ -12,6 +12,9 @@ template class std::basic_ostream<char>;
 template class std::basic_stringbuf<char>;
 template class std::basic_istringstream<char>;
 template class std::basic_ostringstream<char>;
+template class std::basic_filebuf<char>;
+template class std::basic_ofstream<char>;
+template class std::basic_ifstream<char>;
 template std::istream& std::getline(std::istream&, std::string&, char);
 template std::istream& std::operator>>(std::istream&, char&);
 template std::ostream& std::operator<<(std::ostream&, char);
@@ -127,3 +130,11 @@ template<> basic_istream<char>& getline(basic_istream<char>& in, basic_string<ch
   return in;
 }
 }
+
+// codecvt facet handed out for file streams: the "C" locale never converts
+namespace { struct verif_codecvt : public std::codecvt<char, char, std::mbstate_t> {
+  verif_codecvt() : std::codecvt<char, char, std::mbstate_t>(1) {}
+  bool do_always_noconv() const throw() override { return true; }
+  int do_encoding() const throw() override { return 1; }
+}; }
+extern "C" void *verif_make_codecvt() { return new verif_codecvt(); }
